@@ -12,6 +12,7 @@ import (
 	"os"
 	"regexp"
 	"strings"
+	"time"
 
 	"verif/harness/sim"
 )
@@ -147,6 +148,10 @@ func main() {
 		v.Inconclude("engine did not boot: " + err.Error())
 		os.Exit(v.Write())
 	}
+	// from here on the engine's clock is virtual: the sleepers that un-register endpoints after the retention
+	// period (30 s) only run when this program fires them, never in the middle of a later case
+	vclk := sim.NewVClock(time.Now())
+	sim.UseClock(vclk)
 	total := args.Pick(160, 2400)
 	lo, hi := args.Share(total)
 	for i := lo; i < hi; i++ {
@@ -223,6 +228,100 @@ func main() {
 						v.Violate(fmt.Sprintf("C14/l1/unmanaged/%s/%s", kind, ml),
 							fmt.Sprintf("the engine ran %v for %s %s, but it registered neither manage_all nor an expression matching %q (registered: %v)", sim.SortedKeys(ran), m, u, m+":::"+u, exprs),
 							replay{Case: i, Seed: args.Seed, Flows: flows, Method: m, URL: u, Registered: exprs, Ran: sim.SortedKeys(ran)})
+					}
+				}
+			}
+		}
+		// ---- the same flows loaded again (an ordinary reload), then the retention period passes: what the
+		// engine schedules for un-registration must not include expressions the loaded flows still need
+		if i%3 == 0 {
+			// sleepers scheduled by the switch from the previous case's flows to this case's are dropped: only the
+			// reload of the SAME flows is under test here
+			for _, p := range vclk.Pending() {
+				vclk.Drop(p.ID)
+			}
+			variant := "same-flows-again"
+			if i%6 == 3 && len(flows) > 0 {
+				// an endpoint is taken out and put back within the retention period: flows without f0, then all flows again
+				variant = "a-flow-removed-and-restored-within-the-retention-period"
+				cfg2 := sim.Config{Flows: map[string]string{}, Quotas: map[string]string{}}
+				for _, f := range flows[1:] {
+					cfg2.Flows[f.Name+".yaml"] = flowYAML(f)
+				}
+				sim.WriteConfDir(cfg2)
+				eng.Admin("POST", "/load_flows", nil)
+				sim.WriteConfDir(cfg)
+			}
+			code, _ := eng.Admin("POST", "/load_flows", nil)
+			if code == 200 {
+				time.Sleep(3 * time.Millisecond) // the sleepers are started as goroutines by the reload
+				for _, p := range vclk.Pending() {
+					vclk.Fire(p.ID)
+				}
+				// the sleepers issue their DELETEs over loopback HTTP: wait until the request log is stable
+				stable, last := 0, -1
+				for w := 0; w < 400 && stable < 10; w++ {
+					n := len(eng.HAProxy.Snapshot())
+					if n == last {
+						stable++
+					} else {
+						stable, last = 0, n
+					}
+					time.Sleep(500 * time.Microsecond)
+				}
+				registered := map[string]bool{}
+				all := false
+				deleted := 0
+				for _, q := range eng.HAProxy.Snapshot() {
+					switch {
+					case strings.HasPrefix(q, "PUT /manage_all"):
+						all = true
+					case strings.Contains(q, " /unmanage_all"), strings.Contains(q, " /unmanage_global"):
+						all = false
+					case strings.HasPrefix(q, "PUT /managed_endpoint "):
+						registered[strings.TrimPrefix(q, "PUT /managed_endpoint ")] = true
+					case strings.HasPrefix(q, "DELETE /managed_endpoint "):
+						delete(registered, strings.TrimPrefix(q, "DELETE /managed_endpoint "))
+						deleted++
+					}
+				}
+				v.Count("reloads_followed_by_the_retention_period:"+variant, 1)
+				v.Count("expressions_unregistered_after_retention", deleted)
+				var res2 []*regexp.Regexp
+				for e := range registered {
+					if re, err := regexp.Compile(e); err == nil {
+						res2 = append(res2, re)
+					}
+				}
+			recheck:
+				for _, f := range flows {
+					for _, u := range urlsFor(f) {
+						for _, m := range []string{"GET", "POST", "PUT", "DELETE", "PATCH"} {
+							sim.GlobalSink.Drain()
+							eng.SendRequest(sim.Txn{ID: fmt.Sprintf("c%d-again-%s-%s", i, m, u), Method: m, URL: u, Headers: map[string]string{}})
+							ran := map[string]bool{}
+							for _, e := range sim.GlobalSink.Drain() {
+								if e.Kind == "proc" {
+									ran[e.Args[0]] = true
+								}
+							}
+							if len(ran) == 0 {
+								continue
+							}
+							ok := all
+							for _, re := range res2 {
+								if re.MatchString(m + ":::" + u) {
+									ok = true
+									break
+								}
+							}
+							if !ok {
+								v.Violate("C14/l1/unmanaged/after-reload-and-retention-period/"+variant,
+									fmt.Sprintf("reload variant %s; when the retention period had passed the engine un-registered %d expressions, among them the ones %s %s needs: the engine still runs %v for it, but nothing registered matches %q any more (left: %v)", variant, deleted, m, u, sim.SortedKeys(ran), m+":::"+u, sim.SortedKeys(registered)),
+									replay{Case: i, Seed: args.Seed, Flows: flows, Method: m, URL: u, Registered: sim.SortedKeys(registered), Ran: sim.SortedKeys(ran)})
+								break recheck
+							}
+						}
 					}
 				}
 			}
